@@ -5,7 +5,7 @@
    no loader, no wake-up channel, no lock.  A recorded call takes effect at some instant between its invocation
    and its response (silent Lin step); the history is accepted iff such instants exist for all calls (TLC searches
    them; acceptance = the high-water mark of consumed lines reaches the end, register 1).
-   Lines: reset (C, B, kind), inv/res (thr, op, v, r), quiesce (v = Count()), blockedwait (advisory: Take() calls still blocked, the harness goes on calling Poll), stuck (v = Count() after those repeated calls: must be 0).                                   *)
+   Lines: reset (C, B, kind), setmax (b: SetBufferSizeMaximum completed), inv/res (thr, op, v, r), quiesce (v = Count()), blockedwait (advisory: Take() calls still blocked, the harness goes on calling Poll), stuck (v = Count() after those repeated calls: must be 0).                                   *)
 EXTENDS Json, TLC, Sequences, Integers, FiniteSets, IOUtils
 Trace == ndJsonDeserialize(IOEnv.VERIF_TRACE)
 VARIABLES l, ch, pool, C, B, pend
@@ -31,6 +31,7 @@ Consume ==
      \/ /\ e.ev = "blockedwait" /\ UNCHANGED <<ch, pool, C, B, pend>>                    \* advisory marker: Take() calls still blocked, further calls follow
      \/ /\ e.ev = "stuck" /\ e.v = 0                                                    \* repeated calls after the producer stopped must have retrieved everything
         /\ UNCHANGED <<ch, pool, C, B, pend>>
+     \/ /\ e.ev = "setmax" /\ B' = e.b /\ UNCHANGED <<ch, pool, C, pend>>                 \* SetBufferSizeMaximum: from now on the new maximum decides (a backlog above it stays)
      \/ /\ e.ev = "count" /\ e.v <= C + B /\ e.v >= 0                                     \* never more than C + B items
         /\ UNCHANGED <<ch, pool, C, B, pend>>
   /\ l' = l + 1 /\ Bump
